@@ -8,6 +8,7 @@ struct GT {                       // ground truth: each link decoded on its own 
   std::vector<PCM> half;          // half-rate packet-level decode of each link (only when ChainOpts::half)
   std::vector<int64_t> start;     // global start position of each link
   std::vector<int64_t> len;
+  std::vector<char> tail_sane;    // DecodeResult::tail_sane of each link
   int64_t total = 0;
   int link_of(int64_t pos) const {   // link whose half-open range contains pos; -1 at/after the end
     for (size_t i = 0; i < len.size(); i++) if (pos >= start[i] && pos < start[i] + len[i]) return (int)i;
@@ -106,7 +107,7 @@ static inline bool gen_chain(Tape &t, Report &r, const ChainOpts &o, Chain &c, G
       if (s.bs0 <= 64) g.half.push_back(PCM());     // half rate is refused for 64-sample blocks
       else { if (!decode_packets(s, dh, true)) return r.harness("link %d does not decode at half rate at packet level", i); g.half.push_back(dh.pcm); }
     }
-    g.pcm.push_back(d.pcm); g.start.push_back(g.total); g.len.push_back(N); g.total += N;
+    g.pcm.push_back(d.pcm); g.tail_sane.push_back(d.tail_sane); g.start.push_back(g.total); g.len.push_back(N); g.total += N;
     desc += sfmt("L%d{ch=%d rate=%ld q=%.1f m=%d bs=%d/%d N=%lld pk=%zu ser=%d sig=%d/%g %s} ", i, m.cfg.channels, m.cfg.rate, m.cfg.quality, m.cfg.mode, s.bs0, s.bs1, (long long)N, s.audio.size(), s.serial, m.sig.kind, m.sig.amp, m.lay.desc().c_str());
     if (s.gp_offset) { desc.pop_back(); desc.pop_back(); desc += sfmt(" gp0=%lld} ", (long long)s.gp_offset); }
     c.links.push_back(std::move(s)); meta.push_back(std::move(m));
